@@ -324,7 +324,7 @@ pub fn minimise_and_report(p: &HistProp, seed: u64, tier: Tier, block_first: u64
     let mut shrunk = failing.clone();
     shrunk.ops = ops.clone();
     for si in 0..shrunk.subjects.len() {
-        let used = shrunk.ops.iter().any(|o| matches!(o, Op::Parse { subj } | Op::Compile { subj, .. } if *subj == si));
+        let used = shrunk.ops.iter().any(|o| matches!(o, Op::Parse { subj } | Op::Compile { subj, .. } | Op::CompileQuiet { subj, .. } if *subj == si));
         if !used {
             continue;
         }
@@ -423,7 +423,7 @@ fn compact(sc: &Scenario) -> Scenario {
     }
     for op in &sc.ops {
         match op {
-            Op::Parse { subj } | Op::Compile { subj, .. } => {
+            Op::Parse { subj } | Op::Compile { subj, .. } | Op::CompileQuiet { subj, .. } => {
                 let n = subj_map.len();
                 subj_map.entry(*subj).or_insert(n);
             }
@@ -454,6 +454,7 @@ fn compact(sc: &Scenario) -> Scenario {
             Op::Compile { subj, slot, script, twice } => {
                 Op::Compile { subj: subj_map[subj], slot: *slot, script: script.clone(), twice: *twice }
             }
+            Op::CompileQuiet { subj, slot } => Op::CompileQuiet { subj: subj_map[subj], slot: *slot },
             Op::Render { slot, path } => Op::Render { slot: *slot, path: path_map[path] },
             other => other.clone(),
         })
